@@ -36,6 +36,14 @@ Theorem C06_calcline_col0_iff : forall text pos c, calcline text pos = Some c ->
 Proof. exact calcline_col0_iff. Qed.
 Print Assumptions C06_calcline_col0_iff.
 
+(* the scraped flag CALCLINE_EXCLUSIVE is needed: calcline is calcline_with CALCLINE_EXCLUSIVE (by definition), and under
+   the old policy (calcline_with false: the prefix includes the position) C06_calcline_col's statement is false -
+   an error position on a newline gets column 0 *)
+Theorem C06_calcline_col_needs_exclusive : exists text pos c, 1 <= pos <= len text + 1 /\ 1 <= len text /\
+  calcline_with false text pos = Some c /\ c_colno c = 0.
+Proof. exact calcline_exclusive_needed. Qed.
+Print Assumptions C06_calcline_col_needs_exclusive.
+
 (* full strength (repaired in /repo fb68b76): escape decoding is a total function and EVERY escape
    the grammar accepts calls its callback inside its domain (string.char: 0..UCHAR_MAX,
    utf8.char: 0..MAXUTF on tonumber's 64-bit wrapped value) *)
@@ -49,6 +57,12 @@ Theorem C06_escape_utf8_shape : forall r1 digs r3, u_bounded_digits r1 = Some (d
   0 <= hexval digs <= MAXUTF.
 Proof. exact u_bounded_value. Qed.
 Print Assumptions C06_escape_utf8_shape.
+
+(* the scraped flag U_BOUNDED is needed: under the old \u rule (the model's other branch: span_hex, any number of hex
+   digits) a value above MAXUTF reaches utf8.char, so C06_escape_total's domain clause is false there *)
+Theorem C06_escape_u_bound_needed : exists digs r1 r3, span_hex r1 = (digs, 125 :: r3) /\ digs <> [] /\ MAXUTF < hexval digs.
+Proof. exact escape_u_bound_needed. Qed.
+Print Assumptions C06_escape_u_bound_needed.
 
 (* capture nesting: with the depth the expression ladder produces for n nested bracketings,
    the matcher gives up ("subcapture nesting too deep") exactly from the computed threshold on
